@@ -39,8 +39,8 @@ LEVEL_TEXT = {
             "(operator trees of every arity the model has); so a coherent world stays coherent under every assignment that returns normally, and in a "
             "coherent world every immediately bound property equals its expression recomputed from scratch. (3) Growth (PropGrow.v): coherence is established "
             "and kept by every history that creates properties, attaches plain observers, binds fresh properties (immediate mode, expressions over existing "
-            "properties incl. bound ones, repeated inputs) and assigns to inputs; also by histories that bind existing properties, unbound or already bound (which may have readers; rebinding is reset() then assignment), call reset(), destroy properties that no live binding reads and move-construct any property (PropMove.v: every tree abstracts to the old one with the source renamed, the invariant is stable under renaming). "
-            "PARTIAL: observers that write and move assignment are covered by the extracted checker check_c02 on every reached world and by correspondence; known finding "
+            "properties incl. bound ones, repeated inputs) and assigns to inputs; also by histories that bind existing properties, unbound or already bound (which may have readers; rebinding is reset() then assignment), call reset(), destroy properties that no live binding reads move-construct any property and move-assign over destinations no live binding reads (PropMove.v: every tree abstracts to the old one with the source renamed, the invariant is stable under renaming). "
+            "PARTIAL: observers that write are covered by the extracted checker check_c02 on every reached world and by correspondence; known finding "
             "KF-C02-aborted-walk (an exception cutting a notification walk short) is re-confirmed on every run.", '6/C02'),
     'C03': ("Machine-checked on the executable model of Property::setHelper: an equal value changes nothing and logs nothing; any other value notifies every "
             "about-to-change observer with (old, new) while get() = old, stores, then notifies every changed observer with the new value while get() = new, each "
@@ -83,7 +83,7 @@ LEVEL_TEXT = {
             "the moved binding updates the destination, the overwritten binding is gone with all its subscriptions; no signal is left emitting. Scoped connections: "
             "a move hands the guarded connection over, the source guards nothing afterwards, what the destination guarded is disconnected. Values (coq/PropMove.v): "
             "move construction gives the destination the value and updater of the source, and in worlds of immediate bindings without acting observers every bound "
-            "property still equals its expression afterwards. PARTIAL: values across move ASSIGNMENT and in mixed worlds, and notification order seen by observers, "
+            "property still equals its expression after a move construction or a move assignment over an unread destination. PARTIAL: values in mixed worlds and the notification order seen by observers "
             "are tied by correspondence and check_c02 on every reached world (tests).", '6/C11'),
     'C13': ("Machine-checked on the executable model: a clean node runs no user function, one evaluation runs at most one function per operator node, get() runs "
             "none, evaluator-driven notifications only mark. The strict statement is refuted for immediate mode with several notification paths "
